@@ -78,6 +78,9 @@ class X12Base(object):
             if len(seg_data) != 16:
                 err_str = 'The ISA segment must have 16 elements ({})'.format(seg_data)
                 raise pyx12.errors.X12Error(err_str)
+            if self.loops:
+                err_str = 'ISA segment found inside an unterminated {} loop'.format(self.loops[-1][0])
+                self._isa_error('022', err_str)
             interchange_control_number = seg_data.get_value('ISA13')
             if interchange_control_number in self.isa_ids:
                 err_str = 'ISA Interchange Control Number '
@@ -89,6 +92,9 @@ class X12Base(object):
             self.gs_ids = []
             self.isa_usage = seg_data.get_value('ISA15')
         elif seg_id == 'GS':
+            if not self.loops or self.loops[-1][0] != 'ISA':
+                err_str = 'GS segment is not directly inside an ISA loop'
+                self._isa_error('022', err_str)
             group_control_number = seg_data.get_value('GS06')
             if group_control_number in self.gs_ids:
                 err_str = 'GS Interchange Control Number '
@@ -102,6 +108,9 @@ class X12Base(object):
         elif seg_id == 'ST':
             self.hl_stack = []
             self.hl_count = 0
+            if not self.loops or self.loops[-1][0] != 'GS':
+                err_str = 'ST segment is not directly inside a GS loop'
+                self._isa_error('022', err_str)
             transaction_control_number = seg_data.get_value('ST02')
             if transaction_control_number in self.st_ids:
                 err_str = 'ST Interchange Control Number '
